@@ -145,3 +145,322 @@ Definition do_kill (s : state) (p : Z) : state :=
   | Some a => if wannadie a then s else do_exit s p
   | None => s
   end.
+
+(* ---------------------------------------------------------------------------------------------- run phase *)
+(* ActorImpl::cleanup_from_self: on_exit callbacks in reverse registration order (the join callback finishes the
+   joiner's sleep action), then cleanup_from_kernel (actor_list_, daemons_) *)
+Fixpoint run_onexit (p : Z) (failed : bool) (cbs : list xcb) (s : state) : state :=
+  match cbs with
+  | [] => s
+  | XUser k :: r => run_onexit p failed r (add_log s (EExit p k (clock s) failed))
+  | XJoin j :: r =>
+    run_onexit p failed r
+      (mod_actor s j (fun a => match a_st a with
+                               | SBlocked (BJoin tg _) => if tg =? p then set_st a (SBlocked BFin) else a
+                               | _ => a end))
+  end.
+
+Definition bury (a : actor) : actor :=
+  mkA (a_pid a) (a_cur a) (a_prog a) (a_idx a) SDead false false [] None (a_kset a) (a_t0 a) (a_dist a).
+
+Definition terminate (s : state) (p : Z) (failed : bool) : state :=
+  match get_actor p (actors s) with
+  | None => s
+  | Some a =>
+    let s1 := run_onexit p failed (a_onexit a) s in
+    let s2 := set_acts s1 (cancel_owned p (acts s1)) in
+    add_log (mod_actor s2 p bury) (ETerm p (clock s))
+  end.
+
+(* user code between two simcalls: sleep_for(d <= 0) returns without any simcall *)
+Fixpoint start_ops (p : Z) (prog : list op) (i : Z) (s : state) : state :=
+  match prog with
+  | [] => terminate s p false
+  | OSleep d :: rest =>
+    if d <=? 0 then start_ops p rest (i + 1) (add_log s (ERet p i (OSleep d) (clock s) (clock s) 0 false))
+    else mod_actor s p (fun a => start_op a (OSleep d) rest i (clock s))
+  | o :: rest => mod_actor s p (fun a => start_op a o rest i (clock s))
+  end.
+
+Definition act_entry (s : state) (o : op) (r : Z) : state :=
+  match o with
+  | OWaitFor h _ =>
+    if r =? 0 then match get_act h (acts s) with
+                   | Some x => match h_st x with ADone t => add_log s (EAct h (h_start x) t) | _ => s end
+                   | None => s end
+    else s
+  | _ => s
+  end.
+
+(* the context of actor p is resumed by run_all_actors (ActorImpl::yield returns) *)
+Definition run_actor (s : state) (p : Z) : state :=
+  match get_actor p (actors s) with
+  | None => s
+  | Some a =>
+    match a_st a with
+    | SDying f _ => terminate s p f
+    | SStart _ => start_ops p (a_prog a) 0 s
+    | SReady r _ =>
+      if a_susp a then mod_actor s p (fun a => set_susp (set_st a (SParked r)) true true)
+      else let s1 := act_entry s (a_cur a) r in
+           start_ops p (a_prog a) (a_idx a + 1) (add_log s1 (ERet p (a_idx a) (a_cur a) (a_t0 a) (clock s) r (a_dist a)))
+    | _ => s
+    end
+  end.
+
+(* ---------------------------------------------------------------------------------------------- simcalls *)
+Definition pids (s : state) : list Z := map a_pid (actors s).
+
+Definition do_suspend (s : state) (tg : Z) : state :=
+  match get_actor tg (actors s) with
+  | None => s
+  | Some a =>
+    if wannadie a || a_susp a then s
+    else set_acts (mod_actor s tg (fun a => set_susp a true true))
+           (map (fun x => if h_owner x =? tg then match h_st x with ARun dt => set_hst x (ASusp (dt - clock s)) true | _ => x end else x) (acts s))
+  end.
+
+Definition do_resume (s : state) (tg : Z) : state :=
+  match get_actor tg (actors s) with
+  | None => s
+  | Some a =>
+    if wannadie a || negb (a_susp a) then s
+    else
+      let s1 := set_acts s (map (fun x => if h_owner x =? tg then match h_st x with ASusp r => set_hst x (ARun (clock s + r)) true | _ => x end else x) (acts s)) in
+      match a_st a with
+      | SParked r => bump (mod_actor s1 tg (fun a => set_susp (set_st a (SReady r (seq s))) false true))
+      | SBlocked BSelf => bump (mod_actor s1 tg (fun a => set_susp (set_st a (SReady 0 (seq s))) false true))
+      | SBlocked _ => mod_actor s1 tg (fun a => set_susp a false true)
+      | _ => set_race s     (* resume() reschedules an actor that is scheduled / has an unhandled simcall *)
+      end
+  end.
+
+Definition owned_ok (s : state) (p h : Z) : bool :=
+  match get_act h (acts s) with Some x => h_owner x =? p | None => false end.
+Definition act_over (s : state) (h : Z) : bool :=
+  match get_act h (acts s) with Some x => match h_st x with ADone _ | ACanc => true | _ => false end | None => false end.
+Definition deadline (s : state) (t : Z) : option Z := if t <? 0 then None else Some (clock s + t).
+
+Definition handle_simcall (s : state) (p : Z) : state :=
+  match get_actor p (actors s) with
+  | None => s
+  | Some a =>
+    match a_st a with
+    | SCalled =>
+      match a_cur a with
+      | OSleep d => mod_actor s p (fun a => set_st a (SBlocked (BSleep (clock s + clamp (prec s) d))))
+      | OExecAsync h d =>
+        match get_act h (acts s) with
+        | Some _ => answer s p (-9)
+        | None => if d <? 0 then answer s p (-9)
+                  else answer (set_acts s (acts s ++ [mkH h p (ARun (clock s + d)) (clock s) d false])) p 0
+        end
+      | OWaitFor h t =>
+        if owned_ok s p h then
+          match get_act h (acts s) with
+          | Some x => match h_st x with
+                      | ADone _ => answer s p 0
+                      | ACanc => answer s p 2
+                      | _ => mod_actor s p (fun a => set_st a (SBlocked (BWait h (deadline s t))))
+                      end
+          | None => answer s p (-9)
+          end
+        else answer s p (-9)
+      | OWaitAny t hs =>
+        if forallb (owned_ok s p) hs then
+          match find (act_over s) hs with
+          | Some h => answer s p h
+          | None => mod_actor s p (fun a => set_st a (SBlocked (BWaitAny hs (deadline s t))))
+          end
+        else answer s p (-9)
+      | OJoin tg t =>
+        match get_actor tg (actors s) with
+        | None => answer s p (-9)
+        | Some b =>
+          if (t <? 0) && negb (t =? -1) then answer s p (-9)
+          else if wannadie b then answer s p 0
+          else let s1 := mod_actor s tg (fun b => set_onexit b (XJoin p :: a_onexit b)) in
+               mod_actor s1 p (fun a => set_st a (SBlocked (BJoin tg (if t =? -1 then None else Some (clock s + clamp (prec s) t)))))
+        end
+      | OKill tg =>
+        match get_actor tg (actors s) with
+        | None => answer s p (-9)
+        | Some _ => let s1 := do_kill s tg in if tg =? p then s1 else answer s1 p 0
+        end
+      | OKillAll => answer (fold_left (fun s q => if q =? p then s else do_kill s q) (pids s) s) p 0
+      | OSetKillTime t =>
+        if a_kset a then answer s p (-9)
+        else answer (mod_actor s p (fun a => set_kill a (if t <=? clock s then None else Some t) true)) p 0
+      | ODaemonize => answer (mod_actor s p (fun a => set_daemon a true)) p 0
+      | OOnExit k => answer (mod_actor s p (fun a => set_onexit a (XUser k :: a_onexit a))) p 0
+      | OSuspend tg =>
+        match get_actor tg (actors s) with
+        | None => answer s p (-9)
+        | Some _ => let s1 := do_suspend s tg in
+                    if tg =? p then mod_actor s1 p (fun a => set_st a (SBlocked BSelf)) else answer s1 p 0
+        end
+      | OResume tg =>
+        match get_actor tg (actors s) with
+        | None => answer s p (-9)
+        | Some _ => answer (do_resume s tg) p 0
+        end
+      | OExit => do_exit s p
+      | OYield => answer s p 0
+      | OBad => answer s p (-9)
+      end
+    | _ => s    (* simcall_handle returns at once on an actor that wannadie *)
+    end
+  end.
+
+(* ---------------------------------------------------------------------------------------------- ended actions *)
+Definition notify_owner (s : state) (x : act) : state :=
+  match get_actor (h_owner x) (actors s) with
+  | Some a =>
+    match a_st a with
+    | SBlocked (BWait h _) => if h =? h_id x then answer s (a_pid a) 0 else s
+    | SBlocked (BWaitAny hs _) => if existsb (Z.eqb (h_id x)) hs then answer s (a_pid a) (h_id x) else s
+    | _ => s
+    end
+  | None => s
+  end.
+Definition end_act (s : state) (h : Z) : state :=
+  match get_act h (acts s) with
+  | Some x => match h_st x with
+              | AFin t => notify_owner (mod_act s h (fun x => set_hst x (ADone t) (h_dist x))) x
+              | _ => s end
+  | None => s
+  end.
+(* SleepImpl::finish *)
+Definition end_sleep (s : state) (p : Z) : state :=
+  match get_actor p (actors s) with
+  | Some a => match a_st a with
+              | SBlocked BFin => if a_susp a then mod_actor s p (fun a => set_susp (set_st a (SParked 0)) true true)
+                                 else answer s p 0
+              | _ => s end
+  | None => s
+  end.
+Definition handle_ended (s : state) : state :=
+  fold_left end_sleep (pids s) (fold_left end_act (map h_id (acts s)) s).
+
+Definition live (a : actor) : bool := match a_st a with SDead => false | _ => true end.
+Definition daemon_sweep (s : state) : state :=
+  let l := filter live (actors s) in
+  if forallb a_daemon l then fold_left do_kill (map a_pid l) s else s.
+
+(* ---------------------------------------------------------------------------------------------- sub-round *)
+Fixpoint insert_pos (x : Z * Z) (l : list (Z * Z)) : list (Z * Z) :=
+  match l with [] => [x] | y :: r => if fst x <? fst y then x :: l else y :: insert_pos x r end.
+Definition to_run (s : state) : list Z :=
+  map snd (fold_right insert_pos [] (flat_map (fun a => match runnable_pos a with Some n => [(n, a_pid a)] | None => [] end) (actors s))).
+
+Definition subround (s : state) : state :=
+  let l := to_run s in
+  let s1 := fold_left run_actor l s in
+  let s2 := reset_batch (fold_left handle_simcall l s1) in
+  daemon_sweep (close_batch (handle_ended s2)).
+
+Fixpoint drain (fuel : nat) (s : state) : state :=
+  match fuel with
+  | O => s
+  | S f => match to_run s with [] => s | _ => drain f (subround s) end
+  end.
+
+(* ---------------------------------------------------------------------------------------------- time *)
+Definition omin (a : option Z) (b : Z) : option Z := match a with None => Some b | Some x => Some (Z.min x b) end.
+Definition actor_dates (a : actor) : list Z :=
+  (match a_kill a with Some k => [k] | None => [] end) ++
+  match a_st a with
+  | SBlocked (BSleep dt) => [dt]
+  | SBlocked (BJoin _ (Some dt)) => [dt]
+  | SBlocked (BWait _ (Some dl)) => [dl]
+  | SBlocked (BWaitAny _ (Some dl)) => [dl]
+  | _ => []
+  end.
+Definition act_dates (x : act) : list Z := match h_st x with ARun dt => [dt] | _ => [] end.
+Definition all_dates (s : state) : list Z := flat_map actor_dates (actors s) ++ flat_map act_dates (acts s).
+Definition next_date (s : state) : option Z := fold_left omin (all_dates s) None.
+
+Definition due (s : state) (m dt : Z) : bool := Z.abs (dt - m) <? prec s.   (* double_equals(top_date, now, precision) *)
+Definition pop_actor (s : state) (m : Z) (a : actor) : actor :=
+  match a_st a with
+  | SBlocked (BSleep dt) => if due s m dt then set_st a (SBlocked BFin) else a
+  | SBlocked (BJoin _ (Some dt)) => if due s m dt then set_st a (SBlocked BFin) else a
+  | _ => a
+  end.
+Definition pop_act (s : state) (m : Z) (x : act) : act :=
+  match h_st x with ARun dt => if due s m dt then set_hst x (AFin m) (h_dist x) else x | _ => x end.
+Definition pending (s : state) : bool :=
+  existsb (fun a => match a_st a with SBlocked BFin => true | _ => false end) (actors s)
+  || existsb (fun x => match h_st x with AFin _ => true | _ => false end) (acts s).
+
+Definition fire_timer (s : state) (p : Z) : state :=
+  match get_actor p (actors s) with
+  | None => s
+  | Some a =>
+    match a_kill a with
+    | Some kt => if kt <=? clock s then do_exit s p else s
+    | None => s
+    end
+  end.
+Definition fire_timeout (s : state) (p : Z) : state :=
+  match get_actor p (actors s) with
+  | None => s
+  | Some a =>
+    match a_st a with
+    | SBlocked (BWait h (Some dl)) =>
+      if dl <=? clock s then
+        match get_act h (acts s) with
+        | Some x => match h_st x with
+                    | AFin _ => mod_actor s p (fun a => set_st a (SBlocked (BWait h None)))  (* finished right on time *)
+                    | _ => answer s p 1 end
+        | None => answer s p 1
+        end
+      else s
+    | SBlocked (BWaitAny hs (Some dl)) => if dl <=? clock s then answer s p (-1) else s
+    | _ => s
+    end
+  end.
+Definition fire_timers (s : state) : state :=
+  fold_left (fun s p => fire_timeout (fire_timer s p) p) (pids s) s.
+
+(* solve() + update_actions_state, then Timer::execute_all, then handle_ended_actions.
+   None = the simulation is over. *)
+Definition advance (s : state) : option state :=
+  match to_run s with
+  | _ :: _ => Some (set_stuck s)
+  | [] =>
+    if pending s then Some (set_stuck s) else
+    match next_date s with
+    | None => if existsb live (actors s) then Some (fold_left do_kill (pids s) s)   (* deadlock: kill everybody *)
+              else None
+    | Some m =>
+      if m <? clock s then Some (set_stuck s)
+      else
+        let s1 := set_clock s m in
+        let s2 := set_acts (set_actors s1 (map (pop_actor s1 m) (actors s1))) (map (pop_act s1 m) (acts s1)) in
+        let npop := Z.of_nat (length (filter (fun x => match h_st x with AFin _ => true | _ => false end) (acts s2))) in
+        let s3 := reset_batch s2 in
+        let s4 := close_batch (handle_ended (fire_timers s3)) in
+        Some (if 2 <=? npop then mkS (clock s4) (prec s4) (seq s4) (actors s4) (acts s4) (log s4) (batch s4) true (race s4) (stuck s4) else s4)
+    end
+  end.
+
+Definition halted (s : state) : bool := race s || stuck s.
+
+Fixpoint run (fuel : nat) (s : state) : state * bool :=   (* bool: the simulation ended within the fuel *)
+  match fuel with
+  | O => (s, false)
+  | S f =>
+    let s1 := drain fuel s in
+    if halted s1 then (s1, true) else
+    match advance s1 with
+    | None => (s1, true)
+    | Some s2 => if halted s2 then (s2, true) else run f s2
+    end
+  end.
+
+Definition init_actor (p : Z) (prog : list op) : actor := mkA p OBad prog 0 (SStart p) false false [] None false 0 false.
+Fixpoint init_actors (p : Z) (progs : list (list op)) : list actor :=
+  match progs with [] => [] | pr :: r => init_actor p pr :: init_actors (p + 1) r end.
+Definition init (pr : Z) (progs : list (list op)) : state :=
+  mkS 0 pr (Z.of_nat (length progs) + 1) (init_actors 1 progs) [] [] 0 false false false.
